@@ -19,7 +19,7 @@ TRUSTED = []
 ASSUMPTIONS = ["sparse files read as zeros; scratch space for the single 2 GiB success case of the thorough tier"]
 # a correct library refuses every over-limit case at once; only a violating one writes gigabytes, bounded per case by the watchdog
 # (quick: 8 s; thorough: 150 s, where one 2 GiB archive is really written) and on disk by vol.big removing stale outputs
-ENV = {"OP2DRV_WATCHDOG": "8"}
+ENV = {"OP2DRV_WATCHDOG": "30"}
 
 G2 = 1 << 31
 G4 = 1 << 32
@@ -33,7 +33,7 @@ def archive_len(members):
 
 def cases(tier, rng):
     thorough = tier == "thorough"
-    ENV["OP2DRV_WATCHDOG"] = "150" if thorough else "8"
+    ENV["OP2DRV_WATCHDOG"] = "150" if thorough else "30"
     for pre, dest in (("-", "absent"), ("00112233", "same")):
         refuse = lambda ms, tag: Case(line(pre, ms), expect=f"err dest={dest}", tag=tag)
         # a member that does not fit the 31-bit block length / int32 size field
@@ -56,7 +56,8 @@ def cases(tier, rng):
             yield Case(line(pre, ms), expect="ok", tag="below-limits-succeeds")
     if thorough:
         ms = [(b"a", G2 - 1)]
-        yield Case(line("-", ms), expect="ok", tag="largest-member-that-fits-succeeds")
+        # really writes 2 GiB: give it a watchdog of its own (a loaded machine needs minutes under ASan)
+        yield Case(line("-", ms).replace("!vol.big", "!900!vol.big", 1), expect="ok", tag="largest-member-that-fits-succeeds")
 
 def search(drv, model, diverged, lean, rng):
     from ..framework import run_impl
